@@ -1461,3 +1461,59 @@ RECIPES += (
                     nid = nid * 10 + dof
                 ci = np.searchsorted(c_id_dof, nid)''', "rddmig: column grid / dof read one field late")]
 )
+
+# ---- callers of wtnasints: the head of the card fills the fields before `start`
+RECIPES += (
+    _pair('''    f.write("%-8s%8d" % ("CSUPER", superid))
+    f.write("{:8d}".format(0))
+    wtnasints(f, 4, grids)
+''', '''    f.write("%-8s%8d" % ("CSUPER", superid))
+    wtnasints(f, 4, grids)
+''', '''    f.write(f"CSUPER  {superid:8d}{0:8d}")
+    wtnasints(f, 4, grids)
+''', ["C13-R4"], "wtcsuper: the head of the card by % formatting and two writes", "the zero field is not written but the integers still start in field 4")
+    + [("C13", "break", ["C13-R4"], B, '''    f.write("EXTRN   ")
+    ints = np.zeros(len(ids) * 2, dtype=int)
+    ints[::2] = ids
+    ints[1::2] = dof
+    wtnasints(f, 2, ints)''', '''    f.write("EXTRN   ")
+    ints = np.zeros(len(ids) * 2, dtype=int)
+    ints[::2] = ids
+    ints[1::2] = dof
+    wtnasints(f, 3, ints)''', "wtextrn: integers announced for field 3 although only the card name is on the line")]
+)
+
+# ---- DMIG reader: the index a key is searched in holds the keys of that kind (form 6: column DOF merged into the row DOF)
+_PREP_SYM = '''            if form == 6 or (form == 1 and square):
+                for nid, dof in col_iddof:
+                    add_iddof(row_ids, row_iddof, nid, dof)
+                rowindex = _mk_index(row_iddof)
+                colindex = rowindex
+'''
+
+RECIPES += (
+    _pair('''            if form == 6 or (form == 1 and square):
+                for pair in col_iddof:
+                    add_iddof(row_ids, row_iddof, *pair)
+                colindex = rowindex = _mk_index(row_iddof)
+''', '''            if form == 6 or (form == 1 and square):
+                if form == 1:
+                    for pair in col_iddof:
+                        add_iddof(row_ids, row_iddof, *pair)
+                colindex = rowindex = _mk_index(row_iddof)
+''', _PREP_SYM, ["C13-R3"], "rddmig: column DOF merged into the row DOF with a starred pair, chained assignment of the shared index",
+            "form 6: the column DOF are not merged, their keys are searched in the row index")
+    + [("C13", "break", ["C13-R3"], B, _PREP_SYM, '''            if form == 6 or (form == 1 and square):
+                rowindex = _mk_index(row_iddof)
+                colindex = rowindex
+''', "rddmig: symmetric forms use the row index for the columns without merging the column DOF"),
+       ("C13", "break", ["C13-R3"], B, '''            else:
+                rowindex = _mk_index(row_iddof)
+                colindex = _mk_index(col_iddof)
+        else:
+            rowindex = _mk_index(row_iddof)''', '''            else:
+                rowindex = _mk_index(col_iddof)
+                colindex = _mk_index(row_iddof)
+        else:
+            rowindex = _mk_index(row_iddof)''', "rddmig: general forms build the row index from the column DOF and vice versa")]
+)
